@@ -92,6 +92,10 @@ def invariance_case(rec, seedt, backend, nmax, cuda):
               Kdes=int(rng.choice([1, 5, 40])), olap=float(rng.choice([0.0, 0.5, 0.75])))
     if cuda:
         kw.update(Jdes=4, Kdes=2, Lmin=4, olap=0.5)
+    elif rng.random() < 0.4:
+        # plans whose first bins hold less than one (or half a) cycle per segment, and plans that
+        # start higher up: the analyzer accepts any positive bmin
+        kw["bmin"] = float(rng.choice([0.3, 0.45, 0.8, 2.5]))
     kw.update(api.win_args(win))
     fs = float(rng.choice([1.0, 100.0]))
     base = np.vstack([x, y]) if cross else x
